@@ -2,6 +2,7 @@ import Ecal.Lemmas.PriorityBook
 import Ecal.Lemmas.PriorityHeapPop
 import Ecal.Lemmas.PriorityHeapPush
 import Ecal.Lemmas.PriorityCascade
+import Ecal.Gen.C10
 /-!
 # C10 — priorities order execution; the first failing rule ends a trigger sequence
 
@@ -227,6 +228,27 @@ theorem failing_rule_was_started (sort : List Rule → List Rule) (rules : List 
   · rw [h5] at h; cases h
     simp [h4, h5]
 
+/-! ## facts re-extracted from engine/*.go on every run (lean/Ecal/Gen/C10.lean) -/
+
+/-- the shape of `Proc.step` (only `setFlag` writes the flag) is what the source says: every
+    assignment to `failOnFirstError` in package engine stores a parameter of the enclosing function
+    (a setter) — no function resets it to a constant, nobody takes its address. (`other` = a
+    right-hand side the extractor does not classify; the life-cycle cases decide then.) -/
+theorem gen_flag_written_only_by_setters :
+    Gen.C10.flagWriters.all (fun w => w.2 != "const") = true ∧ Gen.C10.flagAddressTaken = false := by
+  decide
+
+/-- the sequential bookkeeping model speaks for concurrent cascades because every function that
+    touches `incomplete` / `priorities` does so inside one `rm.lock` section (or is only called
+    from such a section, or is the constructor) -/
+theorem gen_bookkeeping_under_lock :
+    Gen.C10.bookAccess.all (fun a => a.2 != "unlocked") = true := by decide
+
+/-- `Book.current` (heap order re-established after `RemoveFirst`; skipped monitors not counted in
+    `descendantFinished`) is the variant the source has -/
+theorem gen_guards_present :
+    Gen.C10.reheap ≠ "not-reestablished" ∧ Gen.C10.skipGuard ≠ "skipped-counted" := by decide
+
 /-! ## the per-cascade queue -/
 
 theorem itemLt_strict : StrictTotal Item.lt where
@@ -362,8 +384,8 @@ example : ((({} : PQ).push 10 3).push 11 (-2)).pop.map (·.1.val) = some 11 := b
 
 /-- **The real `heap.Pop` agrees with "pop = least"**: run on a `priorityQueueHeap` slice that is in
     heap order, container/heap's `Pop` (swap, sift down, cut) returns an item that no queued item
-    precedes, keeps all other items, and leaves the slice in heap order.
-    (That `heap.Push` keeps the heap order is not proved here; it is covered by the correspondence.) -/
+    precedes, keeps all other items, and leaves the slice in heap order
+    (`heap_push_keeps_order` is the matching statement for `heap.Push`). -/
 theorem heap_pop_is_min (l l' : List Item) (x : Item) (hok : Heap.Ok Item.lt l l.length 0)
     (hp : Heap.pop Item.lt l = some (x, l')) :
     (∀ y ∈ l, y.lt x = false) ∧ (x :: l').Perm l ∧ Heap.Ok Item.lt l' l'.length 0 :=
@@ -372,6 +394,27 @@ theorem heap_pop_is_min (l l' : List Item) (x : Item) (hok : Heap.Ok Item.lt l l
 
 example : (Heap.pop Item.lt (Heap.push Item.lt (Heap.push Item.lt (Heap.push Item.lt [] ⟨3, 0, 10⟩) ⟨0, 1, 11⟩) ⟨0, 2, 12⟩)).map
     (fun r => (r.1.val, r.2.map (·.val))) = some (11, [12, 10]) := by decide
+
+/-! ### priority numbers below 0 -/
+
+/-- for a monitor priority ≥ 0 the queue orders by exactly that number … -/
+theorem push_keeps_nonneg_priority (q : PQ) (val : Nat) (prio : Int) (h : 0 ≤ prio) :
+    (q.push val prio).items = q.items ++ [{ prio := prio, seq := q.counter, val := val }] := by
+  unfold PQ.push
+  have : ¬ prio < 0 := by omega
+  simp [this]
+
+/-- **Declared deviation (negative witness).** … but a negative monitor priority is clamped to 0 by
+    `PriorityQueue.Push` ("Highest priority is 0 we can't go higher"): an event queued with
+    priority number 0 is taken *before* a later event with priority number −2, although −2 is the
+    lower number; the root monitor does not clamp and reports −2 meanwhile. `pop_is_min`,
+    `no_overtaking`, `real_pop_is_min` speak about the clamped number (`Item.prio`); they state the
+    property's "lowest priority number" only for monitor priorities ≥ 0. Not reachable from ECAL
+    code: the interpreter creates child monitors with `NewChildMonitor(0)` only. -/
+theorem queue_clamps_negative_priorities :
+    ((({} : PQ).push 10 0).push 11 (-2)).pop.map (·.1.val) = some 10 ∧
+    (Book.run Book.current {} [.newChild 0, .activate 1, .newChild (-2), .activate 2]).map
+      Book.highestPriority = some (-2) := by decide
 
 /-! ### the real heap implements the abstract queue -/
 
@@ -505,45 +548,104 @@ theorem real_pop_is_min {h : HPQ} (hr : ReachableH h) :
       rw [he]; exact (List.perm_cons_erase hmem).symm
     exact ((r'.items.cons x).trans this).trans r.items.symm
 
-/-! ## events added by a failing rule -/
+/-! ## `ProcessEvent` composed with the queue: which events a trigger sequence leaves behind -/
 
-open Cascade in
-/-- **Events a rule added are still processed when the rule fails.** For every script (any tree of
-    events, priorities, skipped events, failing rules; both variants of the bookkeeping) run by
-    the worker loop of the cascade model: if the action of event `i` was started, every triggering
-    event `c` that this action adds is started as well — whether or not `i`'s rule then returns
-    an error — and a failing `i` is in the error report. The queue is empty at the end. -/
-theorem children_of_failing_rule_still_run (cfg : Book.Cfg) (nodes : List Node) (i c : Nat)
-    (ni nc : Node) (hi : nodes[i]? = some ni) (hc : nodes[c]? = some nc)
-    (hpar : nc.parent = some i) (htrig : nc.trig = true)
-    (hstart : i ∈ (runScript cfg nodes).started.map (·.1)) :
-    c ∈ (runScript cfg nodes).started.map (·.1) ∧
-    (ni.fails = true → i ∈ (runScript cfg nodes).errs) ∧
-    (runScript cfg nodes).q.items = [] := by
-  obtain ⟨hI, hq⟩ := runScript_spec cfg nodes
-  have hq' : (runScript cfg nodes).q.items = [] := by simpa [qv] using hq
-  refine ⟨?_, ?_, hq'⟩
-  · rcases hI.clo i hstart c nc hc hpar htrig with h | h
+section cascade
+open Cascade
+variable (cfg : Book.Cfg) (sort : List Rule → List Rule) (hs : IsPrioSort sort) (flag : Bool)
+  (nodes : List Node)
+
+/-- started (event, rule) pairs / events taken by the worker / error report of a run -/
+abbrev startedRules := (runScript cfg sort flag nodes).started.map (·.1)
+abbrev taken := (runScript cfg sort flag nodes).popped
+
+include hs
+
+/-- **Exactly the rules `ProcessEvent` starts are started, for exactly the events taken**: an action
+    (event `e`, rule `k`) is started iff the worker took `e` and `k` is among the rules
+    `processRules` runs for `e` (all of them without the flag, the prefix through the first failing
+    one with it); the error report holds exactly the error maps of the taken events. -/
+theorem started_rules_exact (e k : Nat) :
+    ((e, k) ∈ startedRules cfg sort flag nodes ↔
+      e ∈ taken cfg sort flag nodes ∧ k ∈ (processRules sort flag (rulesOf nodes e)).1.map (·.name)) ∧
+    ((e, k) ∈ (runScript cfg sort flag nodes).errs ↔
+      e ∈ taken cfg sort flag nodes ∧ k ∈ (processRules sort flag (rulesOf nodes e)).2.map (·.name)) := by
+  obtain ⟨hI, _⟩ := runScript_spec cfg sort hs.perm flag nodes
+  exact ⟨hI.srs e k, hI.ers e k⟩
+
+/-- **Events added by a started rule are processed — also when that rule, or a later one, fails.**
+    For every script, either flag, any admissible sort: if the action of rule `k` of event `e` was
+    started, every triggering event `c` it adds is taken by the worker and the rules `ProcessEvent`
+    selects for `c` are started in turn. The queue is empty at the end. -/
+theorem children_of_failing_rule_still_run (e k c : Nat) (nc : Node)
+    (hstart : (e, k) ∈ startedRules cfg sort flag nodes)
+    (hc : nodes[c]? = some nc) (hpar : nc.parent = some (e, k)) (htrig : nc.trig = true) :
+    c ∈ taken cfg sort flag nodes ∧
+    (∀ k' ∈ (processRules sort flag (rulesOf nodes c)).1.map (·.name),
+      (c, k') ∈ startedRules cfg sort flag nodes) ∧
+    (runScript cfg sort flag nodes).q.items = [] := by
+  obtain ⟨hI, hq⟩ := runScript_spec cfg sort hs.perm flag nodes
+  have hq' : (runScript cfg sort flag nodes).q.items = [] := by simpa [qv] using hq
+  obtain ⟨he, hk⟩ := (hI.srs e k).mp hstart
+  have hct : c ∈ taken cfg sort flag nodes := by
+    rcases hI.clo e he k hk c nc hc hpar htrig with h | h
     · exact h
     · rw [hq] at h; cases h
-  · intro hf
-    exact hI.err i hstart (by simp [hi, hf])
+  exact ⟨hct, fun k' hk' => (hI.srs c k').mpr ⟨hct, hk'⟩, hq'⟩
 
-/-- every event added from outside that triggers a rule is started; no event is started twice -/
-theorem cascade_runs_each_event_once (cfg : Book.Cfg) (nodes : List Cascade.Node) :
-    ((Cascade.runScript cfg nodes).started.map (·.1)).Nodup ∧
-    ∀ c nc, nodes[c]? = some nc → nc.parent = none → nc.trig = true →
-      c ∈ (Cascade.runScript cfg nodes).started.map (·.1) := by
-  obtain ⟨hI, _⟩ := Cascade.runScript_spec cfg nodes
+/-- **Rules that were not started add nothing**: an event taken by the worker triggers a rule and
+    was added from outside or by a rule whose action was started; no event is taken twice. -/
+theorem unstarted_rules_add_nothing :
+    (taken cfg sort flag nodes).Nodup ∧
+    ∀ c ∈ taken cfg sort flag nodes, ∀ nc, nodes[c]? = some nc →
+      nc.trig = true ∧ ∀ e k, nc.parent = some (e, k) → (e, k) ∈ startedRules cfg sort flag nodes := by
+  obtain ⟨hI, _⟩ := runScript_spec cfg sort hs.perm flag nodes
   refine ⟨hI.n1, ?_⟩
-  intro c nc hc hp ht
-  exact Cascade.external_started cfg nodes c nc hc hp ht
+  intro c hc nc hnc
+  refine ⟨hI.trg c (Or.inl hc) nc hnc, ?_⟩
+  intro e k hp
+  exact (hI.srs e k).mpr (hI.par c (Or.inl hc) nc e k hnc hp)
 
-example : ((Cascade.runScript Book.current
-    [⟨none, none, true, true⟩, ⟨some 0, some 3, true, false⟩, ⟨some 0, some 1, true, false⟩]).started.map (·.1),
-    (Cascade.runScript Book.current
-    [⟨none, none, true, true⟩, ⟨some 0, some 3, true, false⟩, ⟨some 0, some 1, true, false⟩]).errs)
-    = ([1, 2, 0], [0]) := by decide
+/-- every triggering event added from outside is taken -/
+theorem external_events_run (c : Nat) (nc : Node) (hc : nodes[c]? = some nc)
+    (hp : nc.parent = none) (ht : nc.trig = true) : c ∈ taken cfg sort flag nodes := by
+  obtain ⟨hI, hq⟩ := runScript_spec cfg sort hs.perm flag nodes
+  rcases hI.ext c nc hc hp ht with h | h
+  · exact h
+  · rw [hq] at h; cases h
+
+/-- **With fail-on-first-error, per event**: if a rule of a taken event fails, the first failing one
+    (in the sorted order) is started, is the only entry of that event in the error report, and no
+    rule sorted after it is started; rules sorted before it are started (and so are their events,
+    by `children_of_failing_rule_still_run`). -/
+theorem first_failure_ends_the_sequence (e : Nat) (r : Rule)
+    (he : e ∈ taken cfg sort true nodes)
+    (hr : (sort (rulesOf nodes e)).find? (·.fails) = some r) :
+    (e, r.name) ∈ startedRules cfg sort true nodes ∧
+    (∀ k, (e, k) ∈ (runScript cfg sort true nodes).errs ↔ k = r.name) ∧
+    (∀ k, (e, k) ∈ startedRules cfg sort true nodes ↔
+      k ∈ (uptoFirstFail (sort (rulesOf nodes e))).map (·.name)) := by
+  have h1 := fun k => (started_rules_exact cfg sort hs true nodes e k)
+  have hp := (fail_first_prefix sort (rulesOf nodes e)).1
+  refine ⟨?_, ?_, ?_⟩
+  · rw [(h1 r.name).1]
+    exact ⟨he, List.mem_map_of_mem (failing_rule_was_started sort _ r hr).1⟩
+  · intro k
+    rw [(h1 k).2, hp, hr]
+    simp [he]
+  · intro k
+    rw [(h1 k).1, hp]
+    simp [he]
+
+end cascade
+
+example : ((Cascade.runScript Book.current stableSort true
+    [⟨none, none, [(1, true), (0, false), (2, false)]⟩, ⟨some (0, 0), some 3, [(0, false)]⟩,
+     ⟨some (0, 1), some 1, [(0, false)]⟩, ⟨some (0, 2), some 0, [(0, false)]⟩]).started.reverse.map (·.1),
+    (Cascade.runScript Book.current stableSort true
+    [⟨none, none, [(1, true), (0, false), (2, false)]⟩, ⟨some (0, 0), some 3, [(0, false)]⟩,
+     ⟨some (0, 1), some 1, [(0, false)]⟩, ⟨some (0, 2), some 0, [(0, false)]⟩]).errs)
+    = ([(0, 1), (0, 0), (2, 0), (1, 0)], [(0, 0)]) := by decide
 
 /-! ## the root monitor's highest-priority report -/
 
